@@ -216,6 +216,10 @@ func legalCases(defs []cmdDef, thorough bool) []legalCase {
 			}
 			// the client asks for UTF8=ACCEPT but the server does not grant it (empty ENABLED)
 			enables = append(enables, "UTF8=ACCEPT!declined")
+			if cfg.utf8 {
+				// granted, then UNAUTHENTICATE (which disables everything that was enabled) and a new LOGIN
+				enables = append(enables, "UTF8=ACCEPT!unauthenticated")
+			}
 			if cfg.rev2 {
 				enables = append(enables, "IMAP4rev2")
 			}
@@ -283,8 +287,15 @@ func legalBody(lc legalCase, defs []cmdDef) func() interface{} {
 				if strings.HasSuffix(lc.Enable, "!declined") {
 					return "* ENABLED\r\n" + c.Tag + " OK done\r\n"
 				}
-				return "* ENABLED " + lc.Enable + "\r\n" + c.Tag + " OK done\r\n"
+				return "* ENABLED " + strings.TrimSuffix(lc.Enable, "!unauthenticated") + "\r\n" + c.Tag + " OK done\r\n"
 			case "CAPABILITY":
+				if strings.HasSuffix(lc.Enable, "!unauthenticated") {
+					// the same capabilities as in the greeting (the judge goes by the greeting)
+					g := cfg.greeting
+					if i, j := strings.Index(g, "[CAPABILITY "), strings.Index(g, "]"); i >= 0 && j > i {
+						return "* CAPABILITY " + g[i+len("[CAPABILITY "):j] + "\r\n" + c.Tag + " OK done\r\n"
+					}
+				}
 				return "* CAPABILITY IMAP4rev1\r\n" + c.Tag + " OK done\r\n"
 			}
 			return ""
@@ -295,8 +306,16 @@ func legalBody(lc legalCase, defs []cmdDef) func() interface{} {
 			return []problem{{"engine:greeting", err.Error()}}
 		}
 		if lc.Enable != "" {
-			if _, err := c.Enable(imap.Cap(strings.TrimSuffix(lc.Enable, "!declined"))).Wait(); err != nil {
+			if _, err := c.Enable(imap.Cap(strings.TrimSuffix(strings.TrimSuffix(lc.Enable, "!declined"), "!unauthenticated"))).Wait(); err != nil {
 				return []problem{{"engine:enable", err.Error()}}
+			}
+			if strings.HasSuffix(lc.Enable, "!unauthenticated") {
+				if err := c.Unauthenticate().Wait(); err != nil {
+					return []problem{{"engine:unauthenticate", err.Error()}}
+				}
+				if err := c.Login("u", "p").Wait(); err != nil {
+					return []problem{{"engine:login", err.Error()}}
+				}
 			}
 		}
 		mark := len(cEnd.Written)
@@ -684,7 +703,7 @@ func main() {
 	run.Set("delay_bound", int64(dbound))
 	run.Set("preemption_bound", int64(pbound))
 	run.Exhaustive = exhaustive
-	run.Rule = "legality: (capability configuration in {rev1, LITERAL-, LITERAL+, IMAP4rev2, UTF8=ACCEPT advertised, capabilities unknown}) x (nothing / UTF8=ACCEPT / IMAP4rev2 enabled where offered) x 13 commands x every member of a 21-string alphabet (NUL, CR LF, quote, backslash, 8-bit valid and invalid UTF-8, literal-looking text, lengths 4096/4097) in every string position and all pairs, plus APPEND sizes {0,1,4096,4097,70000}; the bytes the real client writes are judged by an independent scanner. synchronisation: 16 scenarios (LOGIN user/password/both literals, APPEND, SEARCH, two threads with literals; server grants, or refuses with NO/BAD) x all schedules within delay bound and preemption bound; connection write hooks flag bytes written while a continuation is awaited and payload bytes after a refusal"
+	run.Rule = "legality: (capability configuration in {rev1, LITERAL-, LITERAL+, IMAP4rev2, UTF8=ACCEPT advertised, capabilities unknown}) x (nothing / UTF8=ACCEPT / IMAP4rev2 enabled where offered / UTF8=ACCEPT asked but not granted / UTF8=ACCEPT granted, then UNAUTHENTICATE and a new LOGIN) x 13 commands x every member of a 21-string alphabet (NUL, CR LF, quote, backslash, 8-bit valid and invalid UTF-8, literal-looking text, lengths 4096/4097) in every string position and all pairs, plus APPEND sizes {0,1,4096,4097,70000}; the bytes the real client writes are judged by an independent scanner. synchronisation: 16 scenarios (LOGIN user/password/both literals, APPEND, SEARCH, two threads with literals; server grants, or refuses with NO/BAD) x all schedules within delay bound and preemption bound; connection write hooks flag bytes written while a continuation is awaited and payload bytes after a refusal"
 	run.Assume("legality is judged against what the server ADVERTISED (greeting) and what was ENABLED; CHARSET usage is not judged (the statement does not mention it)")
 	run.Finish()
 }
